@@ -149,7 +149,7 @@ impl Property for C12 {
     fn cases(&self, tier: Tier) -> usize {
         match tier {
             Tier::Quick => 30_000,
-            Tier::Thorough => 400_000,
+            Tier::Thorough => 2_500_000,
         }
     }
     fn strategy(&self, _tier: Tier) -> BoxedStrategy<C12Case> {
